@@ -859,3 +859,145 @@ Example fold_breaks_literal_divisor_test :
   eval no_floats t1_re "k" "7" fold_ex = Err (EExec 22) /\
   sites2 (fold no_floats t1_re fold_ex_fmt fold_ex) = [EExec 20].
 Proof. repeat split; vm_compute; reflexivity. Qed.
+
+(* ---- the tree the plan EXECUTES (Model/FoldStmt.v): exec_tree = the folded tree with every field
+   reference re-pointed to the state in which the folder left the object of the field it names
+   (operands folded in place, the root not replaced); in_place (relink d) = what a reference or a
+   GROUP BY item evaluates.  Both keep the node conditions and the static type. *)
+From KV Require Import Model.FoldStmt Model.SelectPlans Model.Pipeline Model.PipelineS Model.StmtParser
+                       Proofs.PipelineSProofs Proofs.TypeSafetyTextProofs.
+
+Theorem exec_tree_keeps_type_safety :
+  forall (fo : fops) (re : bytes -> bytes -> res bool),
+  (forall p t, match re p t with Err x => x = EOther | Panic => False | _ => True end) ->
+  forall (fmt_v : F fo -> string) (e : expr),
+  (node_okt fo e = true -> defs_ok (node_okt fo) e = true ->
+   rtype (exec_tree fo re fmt_v e) = rtype e /\ node_okt fo (exec_tree fo re fmt_v e) = true /\
+   defs_ok (node_okt fo) (exec_tree fo re fmt_v e) = true /\
+   forall k v, dyn_ok2 fo re k v (exec_tree fo re fmt_v e)) /\
+  (node_oktv fo e = true -> defs_ok (node_oktv fo) e = true ->
+   rtype (exec_tree fo re fmt_v e) = rtype e /\ node_oktv fo (exec_tree fo re fmt_v e) = true /\
+   defs_ok (node_oktv fo) (exec_tree fo re fmt_v e) = true /\
+   forall ch, dyn_ok_vec fo re ch (exec_tree fo re fmt_v e)).
+Proof. exact (fun fo re re_ok fmt_v e => conj (exec_safe_row fo re re_ok fmt_v e) (exec_safe_vec fo re re_ok fmt_v e)). Qed.
+Print Assumptions exec_tree_keeps_type_safety.
+
+Theorem referenced_object_keeps_type_safety :
+  forall (fo : fops) (re : bytes -> bytes -> res bool),
+  (forall p t, match re p t with Err x => x = EOther | Panic => False | _ => True end) ->
+  forall (fmt_v : F fo -> string) (d : expr),
+  (node_okt fo d = true -> defs_ok (node_okt fo) d = true ->
+   rtype (in_place fo re fmt_v (relink fo re fmt_v d)) = rtype d /\
+   forall k v, dyn_ok2 fo re k v (in_place fo re fmt_v (relink fo re fmt_v d))) /\
+  (node_oktv fo d = true -> defs_ok (node_oktv fo) d = true ->
+   rtype (in_place fo re fmt_v (relink fo re fmt_v d)) = rtype d /\
+   forall ch, dyn_ok_vec fo re ch (in_place fo re fmt_v (relink fo re fmt_v d))).
+Proof. exact (fun fo re re_ok fmt_v d => conj (in_place_safe_row fo re re_ok fmt_v d) (in_place_safe_vec fo re re_ok fmt_v d)). Qed.
+Print Assumptions referenced_object_keeps_type_safety.
+
+(* accepted_statement_type_safe restated OVER THE TREES THE PLAN REALLY EXECUTES: the filter
+   evaluates exec_tree of the checked WHERE tree, the projection exec_tree of every checked field
+   (Optimizer.optimizeSelectExpressions).  Same premises as accepted_statement_type_safe_partial;
+   the failures are the data-dependent sites of the executed trees; any batch size. *)
+Theorem accepted_statement_exec_type_safe_partial :
+  forall (fo : fops) (re : bytes -> bytes -> res bool),
+  (forall p t, match re p t with Err x => x = EOther | Panic => False | _ => True end) ->
+  forall (fmt_v : F fo -> string)
+         (fields : list (string * expr)) (w : expr) (order : list (nat * string)) (s2 : Checker.stmt)
+         (star : bool) (slots : list (option kvpair)),
+  build_check fo true (SSelect fields w order) = Ok s2 ->
+  fields_ranked fields -> stmt_no_refs (SSelect fields w order) = true ->
+  stmt_frag s2 = true -> stmt_params_static s2 = true ->
+  match s2 with
+  | SSelect f2 w2 _ =>
+      rtype (exec_tree fo re fmt_v w2) = TBool /\
+      row_safe fo re (exec_tree fo re fmt_v w2) /\ vec_safe fo re (exec_tree fo re fmt_v w2) /\
+      fields_ready (row_safe fo re) (exec_fields fo re fmt_v star f2) /\
+      fields_ready (vec_safe fo re) (exec_fields fo re fmt_v star f2) /\
+      okerr (fun x => In x (stmt_sites (exec_tree fo re fmt_v w2) (exec_fields fo re fmt_v star f2)))
+            (select_row fo re (exec_tree fo re fmt_v w2) (exec_fields fo re fmt_v star f2) slots) /\
+      forall B,
+        okerr (fun x => In x (stmt_sites (exec_tree fo re fmt_v w2) (exec_fields fo re fmt_v star f2)))
+              (select_batch fo re B (exec_tree fo re fmt_v w2) (exec_fields fo re fmt_v star f2) slots)
+  | _ => False
+  end.
+Proof. exact accepted_select_exec_safe. Qed.
+Print Assumptions accepted_statement_exec_type_safe_partial.
+
+(* the plan nodes on top of a projection add no failure of their own: FinalLimitPlan over any
+   child whose Next / Batch fail only inside E, FinalOrderPlan over any child (batch mode: a
+   child that hands out no empty batch) *)
+Theorem limit_node_adds_no_failure :
+  forall (S A : Type) (cnext : S -> res (option A * S)) (cbatch : S -> res (list A * S)) (E : err -> Prop),
+  (forall s, okerr E (cnext s)) -> (forall s, okerr E (cbatch s)) ->
+  (forall start count s, okerr E (LimitLazy.ldrain_row cnext start count s)) /\
+  (forall fuel B start count st s, okerr E (LimitLazy.ldrain_batch_fuel cbatch fuel B start count st s)).
+Proof.
+  exact (fun S A cnext cbatch E Hn Hb =>
+           conj (ldrain_row_okerr S A cnext E Hn) (ldrain_batch_fuel_okerr S A cbatch E Hb)).
+Qed.
+Print Assumptions limit_node_adds_no_failure.
+
+(* accepted_text_type_safe, projection shapes (Model/PipelineS.v: the twin of BuildPlan + drain
+   from the query TEXT).  For every text the pipeline plans, whose final plan is a ProjectionPlan,
+   a FinalLimitPlan over it or a FinalOrderPlan over it: every store, both modes, any batch size:
+   the run ends in rows, outside the model, or in a data-dependent failure of the trees the plan
+   executes -- never an operand-type error, never a panic, no error of the order / limit nodes.
+   _partial, what stays premise: is_agg = false and proj_shape (aggregates, GROUP BY and a LIMIT
+   over an ORDER BY are not composed); fields_ranked + stmt_no_refs on the parser's statement (the
+   cycle test and "the parser builds no reference" are not composed with parse_real here);
+   stmt_frag (no json / field access, in_kinds) and stmt_params_static on the checked statement;
+   orders_resolve (FinalOrderPlan.Init finds every ORDER BY name: the parser's lookup is not
+   composed). *)
+Theorem accepted_text_type_safe_partial :
+  forall (fo : fops) (re : bytes -> bytes -> res bool),
+  (forall p t, match re p t with Err x => x = EOther | Panic => False | _ => True end) ->
+  forall (fmt_v : F fo -> string) (ag : aggops fo) (pi pf : bytes -> option Z)
+         (q : string) (pl : splanned fo),
+  plan_stmt_text fo re fmt_v q = STOk pl ->
+  is_agg fo pl = false ->
+  fields_ranked (combine (StmtParser.s_names (sp_select fo pl)) (s_fields (sp_select fo pl))) ->
+  stmt_no_refs (parsed_stmt (sp_select fo pl)) = true ->
+  stmt_frag (checked_stmt fo pl) = true -> stmt_params_static (checked_stmt fo pl) = true ->
+  proj_shape (sp_shape fo pl) -> orders_resolve fo (sp_q fo pl) (sp_shape fo pl) ->
+  forall (d : Storage.store) (m : tmode),
+  match select_stmt_text_st fo re fmt_v ag pi pf q d m with
+  | STRunErr e => esites fo (sp_q fo pl) e
+  | STOk _ | STOom => True
+  | _ => False
+  end.
+Proof. exact accepted_text_safe_st. Qed.
+Print Assumptions accepted_text_type_safe_partial.
+
+(* non-vacuity: select key, int(value) / (2 - 2) as n, upper(key) + 'x' as u
+                where key > '' & 1 < 2 order by u desc
+   is planned as FinalOrderPlan over ProjectionPlan; the filter evaluates key > '' (the deciding
+   constant folded away), field n is int(value) / 0; every premise holds; both modes end in the
+   data-dependent failure "division by zero" at the folded literal (offset 26), which is a site
+   of the executed trees *)
+Definition text_ex : string :=
+  "select key, int(value) / (2 - 2) as n, upper(key) + 'x' as u where key > '' & 1 < 2 order by u desc".
+Definition text_ex_store : Storage.store := [("a", "3"); ("ab", "1")].
+
+Example accepted_text_type_safe_nonvacuous :
+  forall (fo : fops) (re : bytes -> bytes -> res bool) (fmt_v : F fo -> string) (ag : aggops fo)
+         (pi pf : bytes -> option Z),
+  exists pl,
+    plan_stmt_text fo re fmt_v text_ex = STOk pl /\ is_agg fo pl = false /\
+    fields_ranked (combine (StmtParser.s_names (sp_select fo pl)) (s_fields (sp_select fo pl))) /\
+    stmt_no_refs (parsed_stmt (sp_select fo pl)) = true /\
+    stmt_frag (checked_stmt fo pl) = true /\ stmt_params_static (checked_stmt fo pl) = true /\
+    proj_shape (sp_shape fo pl) /\ orders_resolve fo (sp_q fo pl) (sp_shape fo pl) /\
+    q_where fo (sp_q fo pl) = EBin 71 OGt (EField 67 KeyKW) (EStr 73 "") /\
+    select_stmt_text_st fo re fmt_v ag pi pf text_ex text_ex_store MRow = STRunErr (EExec 26) /\
+    select_stmt_text_st fo re fmt_v ag pi pf text_ex text_ex_store (MBatch 2) = STRunErr (EExec 26) /\
+    esites fo (sp_q fo pl) (EExec 26).
+Proof.
+  intros. eexists. split; [vm_compute; reflexivity|].
+  split; [vm_compute; reflexivity|].
+  split; [apply ranked_b_sound; vm_compute; reflexivity|].
+  split; [vm_compute; reflexivity|]. split; [vm_compute; reflexivity|]. split; [vm_compute; reflexivity|].
+  split; [exact I|]. split; [vm_compute; discriminate|].
+  split; [vm_compute; reflexivity|]. split; [vm_compute; reflexivity|]. split; [vm_compute; reflexivity|].
+  vm_compute. left. reflexivity.
+Qed.
